@@ -1,0 +1,273 @@
+// SPDX-License-Identifier: Apache-2.0
+// © James Ross Ω FLYING•ROBOTS <https://github.com/flyingrobots>
+//! Verification hooks (feature `echo_verif`).
+//!
+//! Everything in here is additive and compiled only with `--features echo_verif`; it exists so
+//! an out-of-tree model-checking harness can (a) reach crate-private pure functions and
+//! (b) decide, instead of hope for, the order in which parallel workers claim work units.
+
+pub use crate::coordinator::verif as coordinator;
+#[cfg(any(debug_assertions, feature = "footprint_enforce_release"))]
+#[cfg(not(feature = "unsafe_graph"))]
+pub use crate::footprint_guard::verif as footprint_guard;
+pub use crate::scheduler::verif as scheduler;
+pub use crate::snapshot_accum::verif as snapshot_accum;
+pub use crate::tick_patch::verif as tick_patch;
+
+/// Controlled-scheduler seam for the claim counters in `parallel/exec.rs`.
+///
+/// `rt::AtomicUsize` replaces `std::sync::atomic::AtomicUsize` inside the three work-claiming
+/// executors via a block-scope `use`.  With no controller installed it is a plain atomic.  With
+/// a controller installed every worker thread parks before each `fetch_add`; once all live
+/// workers are parked (or have exited) the controller asks the installed chooser which parked
+/// worker performs its claim next, so exactly one worker runs between two scheduling points and
+/// an execution is fully determined by the sequence of choices.
+pub mod rt {
+    use std::cell::RefCell;
+    use std::sync::atomic::Ordering;
+    use std::sync::{Arc, Condvar, Mutex, MutexGuard};
+    use std::time::Duration;
+
+    /// Decision callback: `(enabled worker indices in canonical order, costly)` → index into the
+    /// slice.  Canonical order puts the most recently running worker first when it is still
+    /// enabled; `costly` is true exactly in that case (choosing another index is a preemption).
+    pub type Chooser = Box<dyn FnMut(&[usize], bool) -> usize + Send>;
+
+    #[derive(Clone, Copy, PartialEq, Eq, Debug)]
+    enum Status {
+        Parked,
+        Running,
+        Done,
+    }
+
+    struct State {
+        /// (numeric thread id, status) in arrival order.
+        threads: Vec<(u64, Status)>,
+        baton: Option<u64>,
+        last: Option<u64>,
+        chooser: Chooser,
+        grants: Vec<usize>,
+        error: Option<String>,
+    }
+
+    /// What one controlled execution did.
+    #[derive(Debug, Clone, Default)]
+    pub struct RunLog {
+        /// Worker index (spawn order) granted at each scheduling point.
+        pub grants: Vec<usize>,
+        /// Set when the controller had to give up (timeout, bad choice); the run then free-ran.
+        pub error: Option<String>,
+        /// Number of worker threads that registered.
+        pub threads: usize,
+    }
+
+    /// One controller per controlled execution.
+    pub struct Controller {
+        workers: usize,
+        state: Mutex<State>,
+        cv: Condvar,
+    }
+
+    impl std::fmt::Debug for Controller {
+        fn fmt(&self, f: &mut std::fmt::Formatter<'_>) -> std::fmt::Result {
+            f.debug_struct("Controller")
+                .field("workers", &self.workers)
+                .finish_non_exhaustive()
+        }
+    }
+
+    static CURRENT: Mutex<Option<Arc<Controller>>> = Mutex::new(None);
+
+    struct ExitGuard {
+        ctl: Arc<Controller>,
+        tid: u64,
+    }
+
+    impl Drop for ExitGuard {
+        fn drop(&mut self) {
+            self.ctl.on_exit(self.tid);
+        }
+    }
+
+    thread_local! {
+        static EXIT: RefCell<Option<ExitGuard>> = const { RefCell::new(None) };
+    }
+
+    fn lock<T>(m: &Mutex<T>) -> MutexGuard<'_, T> {
+        m.lock().unwrap_or_else(std::sync::PoisonError::into_inner)
+    }
+
+    fn my_tid() -> u64 {
+        // ThreadIds are allocated monotonically by the spawning thread, so numeric order is
+        // spawn order; `ThreadId::as_u64` is unstable, the Debug form is `ThreadId(N)`.
+        let s = format!("{:?}", std::thread::current().id());
+        s.trim_start_matches("ThreadId(")
+            .trim_end_matches(')')
+            .parse::<u64>()
+            .unwrap_or(u64::MAX)
+    }
+
+    /// Installs a controller expecting exactly `workers` worker threads.  Only one controlled
+    /// execution may be in flight per process.
+    pub fn install(workers: usize, chooser: Chooser) -> Arc<Controller> {
+        let ctl = Arc::new(Controller {
+            workers,
+            state: Mutex::new(State {
+                threads: Vec::new(),
+                baton: None,
+                last: None,
+                chooser,
+                grants: Vec::new(),
+                error: None,
+            }),
+            cv: Condvar::new(),
+        });
+        *lock(&CURRENT) = Some(Arc::clone(&ctl));
+        ctl
+    }
+
+    /// Removes the installed controller and returns what it recorded.
+    pub fn uninstall() -> Option<RunLog> {
+        let ctl = lock(&CURRENT).take()?;
+        let st = lock(&ctl.state);
+        Some(RunLog {
+            grants: st.grants.clone(),
+            error: st.error.clone(),
+            threads: st.threads.len(),
+        })
+    }
+
+    fn current() -> Option<Arc<Controller>> {
+        lock(&CURRENT).clone()
+    }
+
+    impl Controller {
+        fn rank(st: &State, tid: u64) -> usize {
+            st.threads.iter().filter(|(t, _)| *t < tid).count()
+        }
+
+        fn fail(&self, st: &mut State, msg: String) {
+            if st.error.is_none() {
+                st.error = Some(msg);
+            }
+            self.cv.notify_all();
+        }
+
+        fn maybe_decide(&self, st: &mut State) {
+            if st.error.is_some() || st.baton.is_some() {
+                return;
+            }
+            if st.threads.len() < self.workers {
+                return;
+            }
+            if st.threads.iter().any(|(_, s)| *s == Status::Running) {
+                return;
+            }
+            let mut parked: Vec<u64> = st
+                .threads
+                .iter()
+                .filter(|(_, s)| *s == Status::Parked)
+                .map(|(t, _)| *t)
+                .collect();
+            if parked.is_empty() {
+                return;
+            }
+            parked.sort_unstable();
+            let mut costly = false;
+            if let Some(last) = st.last {
+                if let Some(pos) = parked.iter().position(|t| *t == last) {
+                    let t = parked.remove(pos);
+                    parked.insert(0, t);
+                    costly = true;
+                }
+            }
+            let enabled: Vec<usize> = parked.iter().map(|t| Self::rank(st, *t)).collect();
+            let choice = (st.chooser)(&enabled, costly);
+            if choice >= parked.len() {
+                self.fail(
+                    st,
+                    format!("chooser returned {choice} with {} enabled", parked.len()),
+                );
+                return;
+            }
+            st.grants.push(enabled[choice]);
+            st.baton = Some(parked[choice]);
+            self.cv.notify_all();
+        }
+
+        fn park_and_wait(self: &Arc<Self>) {
+            let tid = my_tid();
+            let mut st = lock(&self.state);
+            if let Some(e) = st.threads.iter_mut().find(|(t, _)| *t == tid) {
+                e.1 = Status::Parked;
+            } else {
+                if st.threads.len() >= self.workers {
+                    let msg = format!(
+                        "more than {} worker threads reached the claim counter",
+                        self.workers
+                    );
+                    self.fail(&mut st, msg);
+                    return;
+                }
+                st.threads.push((tid, Status::Parked));
+                EXIT.with(|g| {
+                    *g.borrow_mut() = Some(ExitGuard {
+                        ctl: Arc::clone(self),
+                        tid,
+                    });
+                });
+            }
+            self.maybe_decide(&mut st);
+            loop {
+                if st.error.is_some() {
+                    return;
+                }
+                if st.baton == Some(tid) {
+                    break;
+                }
+                let (g, to) = self
+                    .cv
+                    .wait_timeout(st, Duration::from_secs(20))
+                    .unwrap_or_else(std::sync::PoisonError::into_inner);
+                st = g;
+                if to.timed_out() && st.baton != Some(tid) && st.error.is_none() {
+                    self.fail(&mut st, "timeout waiting for a grant".to_string());
+                    return;
+                }
+            }
+            st.baton = None;
+            st.last = Some(tid);
+            if let Some(e) = st.threads.iter_mut().find(|(t, _)| *t == tid) {
+                e.1 = Status::Running;
+            }
+        }
+
+        fn on_exit(&self, tid: u64) {
+            let mut st = lock(&self.state);
+            if let Some(e) = st.threads.iter_mut().find(|(t, _)| *t == tid) {
+                e.1 = Status::Done;
+            }
+            self.maybe_decide(&mut st);
+        }
+    }
+
+    /// Drop-in for `std::sync::atomic::AtomicUsize` (only what the executors use).
+    #[derive(Debug, Default)]
+    pub struct AtomicUsize(std::sync::atomic::AtomicUsize);
+
+    impl AtomicUsize {
+        /// Creates the counter.
+        #[must_use]
+        pub const fn new(v: usize) -> Self {
+            Self(std::sync::atomic::AtomicUsize::new(v))
+        }
+
+        /// Scheduling point, then the real atomic `fetch_add`.
+        pub fn fetch_add(&self, v: usize, order: Ordering) -> usize {
+            if let Some(ctl) = current() {
+                ctl.park_and_wait();
+            }
+            self.0.fetch_add(v, order)
+        }
+    }
+}
